@@ -94,12 +94,24 @@ def session_fields(repo=None):
     # the GuessStructure of the loaded state: the expression assigned to self.cur_guess (a constructor call,
     # or a private helper `def h(self): return GuessStructure(..)`, which the translator inlines) must be
     # the one _increase_ip_for_target uses
+    class _Subst(ast.NodeTransformer):
+        def __init__(self, m):
+            self.m = m
+
+        def visit_Name(self, n):
+            return self.m.get(n.id, n)
+
     def resolve(e, depth=0):
         if isinstance(e, ast.Call) and isinstance(e.func, ast.Attribute) and isinstance(e.func.value, ast.Name) \
                 and e.func.value.id == "self" and not e.args and not e.keywords and depth < 3:
-            h = translate_omen_gen.expression_helper(cls, "MarkovCracker", e.func.attr)
+            h = translate_omen_gen.helper_body(cls, "MarkovCracker", e.func.attr)
             if h is not None:
-                return resolve(h, depth + 1)
+                # the helper's locals are replaced by what they were assigned
+                m = {}
+                for names, exprs in h[0]:
+                    vals = [_Subst(dict(m)).visit(ast.parse(ast.unparse(x), mode="eval").body) for x in exprs]
+                    m.update(zip(names, vals))
+                return resolve(_Subst(m).visit(ast.parse(ast.unparse(h[1]), mode="eval").body), depth + 1)
         return e
 
     def new_guess(fn):
